@@ -35,9 +35,23 @@ CLASSES = [
     ('DIM', r'^!cmp\[\+ .*(HnswVectorIndex\.dimension - slice::len\(arg:embedding\)|slice::len\(arg:embedding\) - .*HnswVectorIndex\.dimension) == 0\]$'),
     ('FINITE', r'^bool\[.*Iterator>::any\(slice::iter\(arg:embedding\), closure:.*\)\]$'),
     ('FULL', r'^cmp\[\+ .*HnswVectorIndex\.current_count - .*HnswVectorIndex\.max_elements >= 0\]$'),
+    # the same refusal through the struct's own accessor: accepted only when the accessor's body IS that comparison on its receiver (accessor_is_capacity_test)
+    ('FULL', r'^bool\[HnswVectorIndex::is_full\(arg:self\)\]$'),
     ('NORM', r'^!bool\[RangeInclusive::contains\(RangeInclusive::new\(.*NORMALIZATION_NORM_SQ_MIN, .*NORMALIZATION_NORM_SQ_MAX\), simd::sum_squares_f32\(arg:embedding\)\)\]$'),
-    ('IDCAST', r'^variant\(.*try_from\(arg:doc_id\)\) = Break$'),
+    # the id-width refusal is the Err-ness of usize::try_from(doc_id), whatever form tests it: `.map_err(..)?` (= Break; map_err and Try::branch are transparent for
+    # origins), `match .. { Err(_) => bail!(..) }` (= Err), `let Ok(..) = .. else { bail!(..) }` (otherwise edge: ∉ {Ok})
+    ('IDCAST', r'^variant\((?:[\w:<> ]*::)?try_from\(arg:doc_id\)\) (?:= (?:Break|Err)|∉ \{(?:Ok|Continue)\})$'),
 ]
+
+
+def accessor_is_capacity_test(prog):
+    """HnswVectorIndex::is_full is literally `self.current_count >= self.max_elements`: one straight-line body without calls whose return value is that comparison
+    of the two fields of its own receiver.  Only then does `if self.is_full() { refuse }` in add_vector stand for the inline comparison (class FULL)."""
+    isf = prog.body('HnswVectorIndex::is_full')
+    if isf is None or isf.argc != 1 or isf.calls or any(b['t']['k'] == 'switch' for b in isf.blocks):
+        return False
+    r = flow.render(flow.Origin(isf).of_local(0))
+    return r == '(arg:self→HnswVectorIndex.current_count Ge arg:self→HnswVectorIndex.max_elements)'
 
 
 def controlling_edge(body, bb, origin):
@@ -69,10 +83,211 @@ def closure_calls(prog, pred_text, *patterns):
     return False
 
 
-def find_guard(body, targets, fail_rx, exempt_rx=None, extra=None):
+def _call_local(call):
+    """local of the first argument of a call when it is a plain move / copy of a whole local"""
+    if not call.args:
+        return None
+    a = call.args[0]
+    if a.get('k') in ('mv', 'cp') and not a['pl'].get('p'):
+        return a['pl']['l']
+    return None
+
+
+def _mentions(body, l):
+    """(bb, kind) of every read / borrow of local l in the live part of the body (kind: 'ref', 'use', 'arg', 'switch', 'drop')."""
+    out = []
+    for i in sorted(body.live_blocks()):
+        blk = body.blocks[i]
+        for s in blk['s']:
+            rv = s.get('rv')
+            if not rv:
+                continue
+            if rv['k'] in ('ref', 'rawptr') and rv['pl']['l'] == l:
+                out.append((i, 'ref'))
+            elif flow._rv_mentions(rv, l):
+                out.append((i, 'use'))
+            if s['pl']['l'] == l and s['pl'].get('p'):
+                out.append((i, 'ref'))      # assignment through a projection of l
+        t = blk['t']
+        if t['k'] == 'call' and any(a.get('k') in ('mv', 'cp') and a['pl']['l'] == l for a in t.get('args', [])):
+            out.append((i, 'arg'))
+        elif t['k'] == 'switch' and flow._op_local(t['on']) == l:
+            out.append((i, 'switch'))
+    return out
+
+
+def finite_flag_guards(body, param='embedding'):
+    """The explicit-loop form of `if <param>.iter().any(|v| !v.is_finite()) { refuse }`:
+
+        let mut flag = C;  for v in <param>.iter() { if !v.is_finite() { flag = !C; break; } }  if flag == !C { refuse }
+
+    Returns {switch block S: ([failing targets], [passing targets], text)} for every bool switch S on such a flag.  The failing edge of S is the one taken when the
+    flag was moved off its initial value; what makes the PASSING edge mean "every element of <param> is finite" is decided here, on the CFG — not by the look of the loop:
+      (a) the flag is a bool local that is never borrowed and only ever assigned constants: its initial value C in ONE block I, the opposite value in the blocks SET;
+          S tests the flag itself (copies / negations inside S's own block only);
+      (b) the loop head H is a `slice::Iter::next` call on an iterator that is the whole of <param> (`<param>.iter()` / `&<param>`: origin is the parameter itself, no
+          slicing, no adapter), created once, moved from temporary to temporary into the loop and borrowed nowhere but at H (nothing else advances it);
+      (c) every element is looked at: from the Some edge of H the next call of H is unreachable once the SET blocks and the edges "is_finite(this element) is true"
+          are deleted — no `continue` before the test, no test of something else;
+      (d) the loop is left with the flag untouched only when the iterator is exhausted: from I, with the SET blocks and the None edge of H deleted, S is unreachable
+          (no `break` after a finite element, no way round the loop); I and the iterator are not inside an enclosing cycle with H.
+    Setting the flag more often than necessary only refuses more; that is not what this guard class decides."""
+    out = {}
+    o = flow.Origin(body)
+    live = body.live_blocks()
+    heads = [c for c in body.calls if c.bb in live and c.callee and re.search(r'^<core::slice::iter::Iter<.*> as core::iter::traits::iterator::Iterator>::next$', c.callee)
+             and c.dest and not c.dest.get('p') and c.to is not None]
+    loops = []
+    for H in heads:
+        # (b) the iterator: H's receiver is `&mut *(&mut it)`; `it` is defined once, by a move chain that starts at slice::iter / into_iter of the whole parameter
+        l = _call_local(H)
+        it = None
+        for _ in range(4):
+            ds = body.defs.get(l, [])
+            if len(ds) != 1 or ds[0][2] != 'assign' or ds[0][0] != H.bb or ds[0][3]['rv']['k'] != 'ref':
+                break
+            pl = ds[0][3]['rv']['pl']
+            if [x for x in (pl.get('p') or []) if x != '*']:
+                break
+            l = pl['l']
+            if 'core::slice::iter::Iter<' in body.locals[l] and not body.locals[l].startswith('&'):
+                it = l
+                break
+        if it is None:
+            continue
+        chain, cur, src, okc = [it], it, None, True
+        for _ in range(6):
+            ds = body.defs.get(cur, [])
+            if len(ds) != 1:
+                okc = False
+                break
+            bb_, _i, kind, payload = ds[0]
+            if kind == 'assign' and payload['rv']['k'] == 'use' and payload['rv']['a'].get('k') == 'mv' and not payload['rv']['a']['pl'].get('p'):
+                cur = payload['rv']['a']['pl']['l']
+                chain.append(cur)
+                continue
+            if kind == 'call' and payload.is_('core::iter::traits::collect::IntoIterator::into_iter') and 'core::slice::iter::Iter<' in body.locals[cur]:
+                nxt = _call_local(payload)
+                if nxt is not None and body.locals[nxt].startswith('core::slice::iter::Iter<') and payload.args[0]['k'] == 'mv':
+                    cur = nxt
+                    chain.append(cur)
+                    continue
+                src = payload      # `for v in &param`: into_iter of a reference to the whole vector
+                break
+            if kind == 'call' and payload.callee == 'core::slice::iter' and body.locals[cur].startswith('core::slice::iter::Iter<'):   # <[T]>::iter (generics stripped)
+                src = payload
+                break
+            okc = False
+            break
+        if not okc or src is None or not src.args or flow.render(o.of_operand(src.args[0])) != 'arg:%s' % param:
+            continue
+        # every local of the chain is read exactly once (moved on), the loop iterator is borrowed at H only
+        for x in chain:
+            ms = _mentions(body, x)
+            if x == it:
+                if any(m[0] != H.bb or m[1] != 'ref' for m in ms):
+                    okc = False
+            elif len(ms) != 1 or ms[0][1] == 'ref':
+                okc = False
+        it_def = body.defs[it][0][0]
+        after_h = body.reach(body.succ(H.bb))
+        if not okc or it_def in after_h or src.bb in after_h or not body.dominates(it_def, H.bb):
+            continue
+        # the Some / None edges of H
+        blk = body.blocks[H.to]
+        dl = [s['pl']['l'] for s in blk['s'] if s.get('rv') and s['rv']['k'] == 'discr' and s['rv']['pl']['l'] == H.dest['l'] and not s['rv']['pl'].get('p') and not s['pl'].get('p')]
+        t = blk['t']
+        if len(dl) != 1 or t['k'] != 'switch' or flow._op_local(t['on']) != dl[0]:
+            continue
+        tmap = dict((v, tg) for v, tg in t['tg'])
+        if 0 not in tmap or 1 not in tmap or tmap[0] == tmap[1]:
+            continue
+        none_edge, some_tg = (H.to, tmap[0]), tmap[1]
+        # edges "is_finite(the element H just produced) is true"
+        ft = []
+        for i in sorted(live):
+            ti = body.blocks[i]['t']
+            if ti['k'] != 'switch' or ti.get('onty') != 'bool':
+                continue
+            e, neg = o.of_operand(ti['on']), False
+            while e[0] == 'un' and e[1] == 'Not':
+                e, neg = e[2], not neg
+            if not (e[0] == 'call' and e[1] == 'core::f32::is_finite' and len(e[2]) == 1):    # core::f32::<impl f32>::is_finite, generics stripped
+                continue
+            a = e[2][0]
+            if not (a[0] == 'field' and a[2].endswith('Option::Some.0') and a[1][0] == 'downcast' and a[1][2] == 'Some' and a[1][1][0] == 'call'
+                    and len(a[1][1]) > 3 and a[1][1][3] is H):
+                continue
+            vm = dict((v, tg) for v, tg in ti['tg'])
+            true_tg = vm.get(0 if neg else 1, ti['else'])
+            false_tg = vm.get(1 if neg else 0, ti['else'])
+            if true_tg != false_tg:
+                ft.append((i, true_tg))
+        if ft:
+            loops.append((H, none_edge, some_tg, ft))
+    if not loops:
+        return out
+    for S in sorted(live):
+        t = body.blocks[S]['t']
+        if t['k'] != 'switch' or t.get('onty') != 'bool' or t['on'].get('k') not in ('mv', 'cp') or t['on']['pl'].get('p'):
+            continue
+        # (a) the flag behind S
+        F, neg = t['on']['pl']['l'], False
+        for _ in range(4):
+            ds = body.defs.get(F, [])
+            if len(ds) != 1 or ds[0][2] != 'assign' or ds[0][0] != S:
+                break
+            rv = ds[0][3]['rv']
+            if rv['k'] == 'use' and rv['a'].get('k') in ('mv', 'cp') and not rv['a']['pl'].get('p'):
+                F = rv['a']['pl']['l']
+            elif rv['k'] == 'un' and rv['op'] == 'Not' and rv['a'].get('k') in ('mv', 'cp') and not rv['a']['pl'].get('p'):
+                F, neg = rv['a']['pl']['l'], not neg
+            else:
+                break
+        if body.locals[F] != 'bool' or 1 <= F <= body.argc:
+            continue
+        vals = {0: [], 1: []}
+        okf = True
+        for (bb_, _i, kind, payload) in body.defs.get(F, []):
+            a = payload['rv']['a'] if kind == 'assign' and payload['rv']['k'] == 'use' else None
+            if a is None or a.get('k') != 'c' or a.get('ty') != 'bool' or a.get('int') not in (0, 1):
+                okf = False
+                break
+            vals[a['int']].append(bb_)
+        if not okf or any(m[1] == 'ref' for m in _mentions(body, F)):
+            continue
+        for init in (0, 1):
+            if len(vals[init]) != 1 or not vals[1 - init]:
+                continue
+            I, SET = vals[init][0], set(vals[1 - init])
+            tmap = dict((v, tg) for v, tg in t['tg'])
+            fail_tg = tmap.get((1 - init) ^ (1 if neg else 0), t['else'])
+            pass_tg = tmap.get(init ^ (1 if neg else 0), t['else'])
+            if fail_tg == pass_tg:
+                continue
+            for H, none_edge, some_tg, ft in loops:
+                if not body.dominates(I, H.bb) or not body.dominates(H.bb, S) or I in body.reach(body.succ(H.bb)) or I in SET or S in SET:
+                    continue
+                # (c) no next element without this one found finite (or the flag set)
+                if H.bb in body.reach([some_tg], avoid_blocks=SET, avoid_edges=set(ft)):
+                    continue
+                # (d) S with the flag untouched only across the None edge of H, and the loop is not re-entered from there
+                if S in body.reach([I], avoid_blocks=SET, avoid_edges={none_edge}):
+                    continue
+                if H.bb in body.reach([none_edge[1]]):
+                    continue
+                out[S] = ([fail_tg], [pass_tg], 'flag-loop[f32::is_finite of every element of %s, loop at %s; flag `%s` set at %s]' % (
+                    flow.render(o.of_operand(H.args[0])), H.loc, body.local_name(F),
+                    sorted(set(d[3].get('loc', '?') for d in body.defs.get(F, []) if d[0] in SET))[:2]))
+    return out
+
+
+def find_guard(body, targets, fail_rx, exempt_rx=None, extra=None, structural=None):
     """A switch of `body` with an edge whose predicate matches fail_rx such that
        (2) from that failing edge no target is reachable without crossing a passing edge of the same switch, and
        (3) no target is reachable from entry once the passing edges (and exempt edges) are deleted.
+    structural: {switch bb: ([failing targets], [passing targets], text)} — switches recognised as a guard of this class by their structure (finite_flag_guards)
+    rather than by the text of their predicate; they are held to the same two conditions.
     Returns (switch bb, predicate, None) or (None, None, reason)."""
     o = flow.Origin(body)
     rx = re.compile(fail_rx)
@@ -90,6 +305,10 @@ def find_guard(body, targets, fail_rx, exempt_rx=None, extra=None):
             continue
         preds = flow.switch_edge_predicates(body, i, o)
         fail = [(tg, p) for tg, p in preds if rx.search(p) and (extra is None or extra(p))]
+        if not fail and structural and i in structural:
+            fail = [(tg, p) for tg, p in preds if tg in structural[i][0] and tg not in structural[i][1]]
+            fail = [(tg, structural[i][2]) for tg, _ in fail]
+            preds = [(tg, structural[i][2] if tg in structural[i][0] else p) for tg, p in preds]
         if not fail:
             continue
         passing = [(i, tg) for tg, p in preds if (tg, p) not in fail]
@@ -153,6 +372,7 @@ def rejection_classes(ctx, prog, rid, eff):
     av = ctx.body(rid, 'HnswVectorIndex::add_vector')
     o = flow.Origin(av)
     found = {}
+    av_flag = finite_flag_guards(av)
     for e in sorted(flow.err_blocks(av)):
         ce = controlling_edge(av, e, o)
         cls = None
@@ -161,7 +381,12 @@ def rejection_classes(ctx, prog, rid, eff):
                 if re.search(rx, ce[2]):
                     if name == 'FINITE' and not util.finite_closure(prog, ce[2]):
                         continue
+                    if name == 'FULL' and 'is_full(' in ce[2] and not accessor_is_capacity_test(prog):
+                        continue
                     cls = name
+            # the explicit-loop form of the non-finite refusal (flag set in a loop over the whole embedding, tested after it)
+            if cls is None and ce[0] in av_flag and ce[1] in av_flag[ce[0]][0] and ce[1] not in av_flag[ce[0]][1]:
+                cls = 'FINITE'
         if cls is None:
             ctx.inst(rid, av.short, 'unclassified rejection exit (%s)' % (ce[2][:80] if ce else 'no controlling guard'), False,
                      'add_vector has an Err exit at %s whose guard matches no known rejection class: %s — a new rejection reason '
@@ -188,7 +413,7 @@ def rejection_classes(ctx, prog, rid, eff):
                      ('guard %s at %s' % (p, ins.loc_of(g))) if g is not None else 'no pre-append dimension guard: ' + why)
         elif cls == 'FINITE':
             g, p, why = find_guard(ins, first_app, r'^bool\[.*Iterator>::any\((?:slice::iter|.*iter)\(arg:embedding\), closure:.*\)\]$',
-                                   extra=lambda p_: util.finite_closure(prog, p_))
+                                   extra=lambda p_: util.finite_closure(prog, p_), structural=finite_flag_guards(ins))
             have_finite = g is not None
             ctx.inst(rid, ins.short, 'class FINITE checked before the log', g is not None,
                      ('guard %s at %s' % (p[:120], ins.loc_of(g))) if g is not None else
